@@ -1,6 +1,7 @@
 (* C14 — Traffic a flow or policy must see is always registered as managed.
-   Final statements only; proofs are in Lib/Regex.v, Proofs.v, Bridge.v,
-   Literal.v.  The model is the code with patches/C14/fix-F-C14{a,b,f,d}.patch.
+   Final statements only; proofs are in Lib/Regex.v, Proofs.v, Cover.v, Bridge.v,
+   Literal.v, Found.v, Syntax.v.  The model is the code as it is in /repo
+   (repairs F-C14a/b/f/d included).
 
    Objects
      format m p / format_any p   the expression registered for method m (for a
@@ -8,6 +9,7 @@
                                  (HaproxyEndpointFormat / HaproxyAnyMethodEndpointFormat)
      print_expr e                its concrete syntax (compared byte for byte
                                  with the Go string on every check run)
+     parse s                     the independent reader of that syntax (Reader.v)
      re_search e s               HAProxy's map_reg: unanchored search of e in s
                                  (proved equal to the semantics [searches])
      subject m u                 "METHOD:::host/path", what HAProxy searches in
@@ -15,18 +17,30 @@
                                  expression finds the subject
      engine side                 flows: C03.Model.get_flow (C03.Proofs.tree_of fs)
                                  policies: C13.Model endpoint_remedies / endpoint_diagnoses
-   Hypotheses (all decidable)
-     load_ok / stars_last / kind_consistent (flows), build = Some / kind_consistentb
-     (policies): those of C03_sound_lax and C13_sound (kind consistency = open
-     findings F-C03c / F-C13e);
-     url_ok p u = trimmed u && params_nonempty ..: the request URL is spelled
-     without leading/trailing '.' '/' (open finding F-C14c) and no part of it
-     standing at a parameter position of p is empty (open finding F-C14e).
-     This is exactly what the monitor's classifier computes. *)
+   Hypotheses (all decidable, all computed by the monitor's classifier too; the
+   classes are compared with the model on every run, suite flows)
+     load_ok fs                  every AddFlow succeeded
+     kc_at fs f url              no configured pattern collides (host label vs path
+                                 segment) with f's pattern on a node the look-up of
+                                 url reads: open finding F-C14h (= F-C03c) localised
+                                 to the selected flow and the request URL
+     build ds = Some pt, kind_consistentb ds   (policies) the hypotheses of C13_sound;
+                                 kind consistency = F-C13e, config-wide: C13 offers
+                                 no localised form
+     url_ok_exact p u            the request URL is spelled without leading '.' '/',
+                                 with trailing '.' '/' only where the expression
+                                 absorbs them (pattern ending in a wildcard; dots
+                                 after a path parameter in last position) — the rest
+                                 is open finding F-C14c — and no part of it standing
+                                 at a parameter position of p is empty (F-C14e).
+                                 EXACT: C14_found_exactly.
+   The theorems of the first round (C14_cover_flows .. C14_no_bypass_policies, with
+   stars_last, the config-wide kind_consistent and the broader url_ok) are kept
+   unchanged; they are consequences (C14_old_conditions_imply_new). *)
 From Coq Require Import List ZArith Bool String.
 From Verif Require Import Lib.UrlTree Lib.Regex.
-From Verif Require Import C14.Model C14.Proofs C14.Bridge C14.Literal.
-From Verif Require C03.Trie C03.Model C03.Spec C03.Proofs C13.Model.
+From Verif Require Import C14.Reader C14.Model C14.Proofs C14.Cover C14.Bridge C14.Literal C14.Found C14.Syntax.
+From Verif Require C03.Trie C03.Model C03.Spec C03.SpecLocal C03.Proofs C13.Model.
 Import ListNotations.
 Open Scope Z_scope.
 
@@ -139,6 +153,171 @@ Theorem C14_literal_any_method : forall p w,
 Proof. exact literal_format_any. Qed.
 Print Assumptions C14_literal_any_method.
 
+(* ================================================================
+   The same clauses with the narrowest hypotheses
+   ================================================================ *)
+
+(* ---- flows: collision finding localised (kc_at), stars_last dropped (it
+        follows from load_ok), exact spelling condition ---- *)
+Theorem C14_cover_flows_exact : forall fs x f,
+  C03.Model.load_ok fs = true ->
+  In f (C03.Model.get_flow (C03.Proofs.tree_of fs) x) ->
+  C03.SpecLocal.kc_at fs f (C03.Proofs.url_of x) = true ->
+  url_ok_exact (C03.Model.f_url f) (C03.Model.t_url x) = true ->
+  In f fs /\
+  exists e, In e (flow_endpoints f) /\
+            re_search e (subject (C03.Model.t_method x) (C03.Model.t_url x)) = true.
+Proof. exact cover_flows_at. Qed.
+Print Assumptions C14_cover_flows_exact.
+
+Theorem C14_no_bypass_flows_exact : forall fs x f,
+  C03.Model.load_ok fs = true ->
+  In f (C03.Model.get_flow (C03.Proofs.tree_of fs) x) ->
+  C03.SpecLocal.kc_at fs f (C03.Proofs.url_of x) = true ->
+  url_ok_exact (C03.Model.f_url f) (C03.Model.t_url x) = true ->
+  managed (flows_manage_all fs) (flows_endpoints fs)
+          (C03.Model.t_method x) (C03.Model.t_url x) = true.
+Proof. exact no_bypass_flows_at. Qed.
+Print Assumptions C14_no_bypass_flows_exact.
+
+(* the hypotheses of the first-round statements are the stronger ones *)
+Theorem C14_old_conditions_imply_new :
+  (forall p u, url_ok p u = true -> url_ok_exact p u = true) /\
+  (forall fs x f, C03.Spec.kind_consistent fs = true -> In f fs ->
+                  C03.SpecLocal.kc_at fs f (C03.Proofs.url_of x) = true).
+Proof. split; [exact url_ok_exact_of_url_ok | exact old_hyps_imply_new]. Qed.
+Print Assumptions C14_old_conditions_imply_new.
+
+(* ---- the spelling condition is EXACT.  For a pattern that matches the request
+        URL (what the engine's selection implies, C03_sound_lax_at / C13_sound)
+        the expression registered for it finds the raw subject IF AND ONLY IF
+        url_ok_exact holds: outside it the transaction really is not covered by
+        that expression.  Proviso: ":::" occurs once in the subject (a URL that
+        contains "METHOD:::" itself can be found at the inner position). ---- *)
+Theorem C14_found_exactly : forall m p u,
+  trim_url p <> [] ->
+  matches (parse_pattern (split_url p)) (split_url u) = true ->
+  sep_once m u ->
+  re_search (format m p) (subject m u) = url_ok_exact p u /\
+  re_search (format_any p) (subject m u) = url_ok_exact p u.
+Proof.
+  intros m p u HP HM HS. split;
+    [apply found_iff_ok_exact | apply found_any_iff_ok_exact]; assumption.
+Qed.
+Print Assumptions C14_found_exactly.
+
+(* in the words of the property, for a configuration of one flow: a transaction
+   the engine matches to the flow is managed by the proxy IF AND ONLY IF its URL
+   is spelled as url_ok_exact says — the three classes of known-finding hits are
+   exactly the bypasses, no more *)
+Theorem C14_single_flow_managed_iff : forall f x,
+  C03.Model.load_ok [f] = true ->
+  In f (C03.Model.get_flow (C03.Proofs.tree_of [f]) x) ->
+  trim_url (C03.Model.f_url f) <> [] ->
+  sep_once (C03.Model.t_method x) (C03.Model.t_url x) ->
+  managed false (flows_endpoints [f]) (C03.Model.t_method x) (C03.Model.t_url x)
+  = url_ok_exact (C03.Model.f_url f) (C03.Model.t_url x).
+Proof. exact single_flow_exact. Qed.
+Print Assumptions C14_single_flow_managed_iff.
+
+(* [sep_once] is decidable: count the positions where ":::" starts *)
+Theorem C14_sep_once_decidable : forall m u, sep_onceb m u = true -> sep_once m u.
+Proof. exact sep_onceb_spec. Qed.
+Print Assumptions C14_sep_once_decidable.
+
+(* ---- policies, through the kind-aware C13_sound: the selected endpoint's
+        pattern matches the URL in the kind-aware reading (a wildcard stands for
+        parts of its own kind: fix F-C13g in /repo) ---- *)
+Theorem C14_cover_policies_kind : forall ds pt m u,
+  C13.Model.build ds = Some pt -> C13.Model.kind_consistentb ds = true ->
+  policy_selected pt m u ->
+  exists d, In d ds /\ C13.Model.d_method d = m /\
+            matches_kind (parse_pattern (split_url (C13.Model.d_url d))) (split_url u) = true /\
+            In (format m (C13.Model.d_url d)) (policy_endpoints ds) /\
+            (url_ok_exact (C13.Model.d_url d) u = true ->
+             re_search (format m (C13.Model.d_url d)) (subject m u) = true).
+Proof. exact cover_policies_kind. Qed.
+Print Assumptions C14_cover_policies_kind.
+
+(* the spelling condition is asked only of the declarations for this method
+   whose pattern matches this URL — not of every declaration *)
+Theorem C14_no_bypass_policies_exact : forall ds grem gdiag pt m u,
+  C13.Model.build ds = Some pt -> C13.Model.kind_consistentb ds = true ->
+  policy_selected pt m u ->
+  (forall d, In d ds -> C13.Model.d_method d = m ->
+             matches_kind (parse_pattern (split_url (C13.Model.d_url d))) (split_url u) = true ->
+             url_ok_exact (C13.Model.d_url d) u = true) ->
+  managed (policy_manage_all grem gdiag) (policy_endpoints ds) m u = true.
+Proof. exact no_bypass_policies_at. Qed.
+Print Assumptions C14_no_bypass_policies_exact.
+
+(* ---- literal characters, every pattern.
+   Not ending in a wildcard (a "*" elsewhere is a literal character for the
+   formatter): exactly the instances, anchored on the right. ---- *)
+Theorem C14_exact_nowild : forall m p w,
+  ends_wild (split_url p) = false ->
+  (re_search (format m p) w = true <->
+   exists pre u, w = pre ++ subject m u /\ inst true (split_url p) u).
+Proof. exact exact_format_nowild. Qed.
+Print Assumptions C14_exact_nowild.
+
+(* Ending in a wildcard: the subject contains "METHOD:::" followed by an instance
+   of the parts BEFORE the wildcard (literal parts by exactly their characters,
+   parameters by non-empty runs of non-separators); what follows is free — the
+   optional group may be empty and the search does not reach the end. *)
+Theorem C14_exact_wild : forall m p w,
+  ends_wild (split_url p) = true ->
+  (re_search (format m p) w = true <->
+   exists pre u rest, w = pre ++ subject m u ++ rest /\ inst true (removelast (split_url p)) u).
+Proof. exact exact_format_wild. Qed.
+Print Assumptions C14_exact_wild.
+
+Theorem C14_exact_any_wild : forall p w,
+  ends_wild (split_url p) = true ->
+  (re_search (format_any p) w = true <->
+   exists pre u rest, w = pre ++ sep3 ++ u ++ rest /\ inst true (removelast (split_url p)) u).
+Proof. exact exact_format_any_wild. Qed.
+Print Assumptions C14_exact_any_wild.
+
+(* literal parts in front of the wildcard (api.com/v1/[wildcard]): found exactly when the
+   subject contains "METHOD:::api.com/v1" *)
+Theorem C14_literal_wild : forall m p w,
+  ends_wild (split_url p) = true ->
+  literal_pattern (removelast (split_url p)) = true ->
+  (re_search (format m p) w = true <->
+   exists pre rest, w = pre ++ subject m (unsplit true (removelast (split_url p))) ++ rest).
+Proof. exact literal_format_wild. Qed.
+Print Assumptions C14_literal_wild.
+
+(* ---- the concrete syntax.  The byte string the engine registers (format_bytes =
+        what the Go loop writes, compared with the Go string on every run), read
+        by the independent reader of the emitted fragment of RE2 syntax, is an
+        expression that finds exactly the subjects the model expression finds —
+        for ALL methods and URL patterns. ---- *)
+Theorem C14_concrete_syntax : forall m p,
+  (exists e', parse (format_bytes m p) = Some e' /\
+              forall s, re_search e' s = re_search (format m p) s) /\
+  (exists e', parse (format_any_bytes p) = Some e' /\
+              forall s, re_search e' s = re_search (format_any p) s).
+Proof. intros m p. split; [apply read_format | apply read_format_any]. Qed.
+Print Assumptions C14_concrete_syntax.
+
+(* reader after printer = identity up to re-association of sequences, on the whole
+   fragment (not only on what the formatter builds) *)
+Theorem C14_reader_round_trip : forall e,
+  emit1 (e_re e) = true ->
+  parse (print_expr e) = Some (normal e) /\ forall s, re_search (normal e) s = re_search e s.
+Proof. intros e H. split; [apply parse_print; exact H | apply re_search_normal]. Qed.
+Print Assumptions C14_reader_round_trip.
+
+(* hence the printed string determines the language: two expressions of the
+   fragment with the same concrete syntax find the same subjects *)
+Theorem C14_print_determines_language : forall e1 e2,
+  emit1 (e_re e1) = true -> emit1 (e_re e2) = true -> print_expr e1 = print_expr e2 ->
+  forall s, re_search e1 s = re_search e2 s.
+Proof. exact print_determines_language. Qed.
+Print Assumptions C14_print_determines_language.
+
 (* ======== open findings: the unrestricted statements are false ======== *)
 Definition uf := C03.Model.uf.
 Definition rq := C03.Model.rq.
@@ -222,6 +401,47 @@ Proof.
 Qed.
 Print Assumptions C14_cover_policies_full_refuted.
 
+(* F-C14e on the policy side: GET a//x selects the remedy of a/{p}/x, not managed *)
+Definition C14_cover_policies_trimmed_full : Prop := forall ds pt m u,
+  C13.Model.build ds = Some pt -> C13.Model.kind_consistentb ds = true ->
+  policy_selected pt m u -> trimmed u = true ->
+  managed false (policy_endpoints ds) m u = true.
+Theorem C14_cover_policies_trimmed_full_refuted : ~ C14_cover_policies_trimmed_full.
+Proof.
+  intro H.
+  destruct (C13.Model.build [pd "GET" "a/{p}/x"]) as [pt|] eqn:HB; [|vm_compute in HB; discriminate].
+  specialize (H [pd "GET" "a/{p}/x"] pt (bs "GET") (bs "a//x") HB eq_refl).
+  assert (E : managed false (policy_endpoints [pd "GET" "a/{p}/x"]) (bs "GET") (bs "a//x") = false)
+    by (vm_compute; reflexivity).
+  rewrite H in E; [discriminate | | vm_compute; reflexivity].
+  left. vm_compute in HB. inversion HB; subst pt. eexists. vm_compute. left. reflexivity.
+Qed.
+Print Assumptions C14_cover_policies_trimmed_full_refuted.
+
+(* F-C13e / F-C14h on the policy side: a.b/c declared before a/b/d, GET a.b/d
+   selects the remedy of a/b/d; neither expression finds it *)
+Definition pdn (m u : string) (n : Z) : C13.Model.decl :=
+  {| C13.Model.d_method := bs m; C13.Model.d_url := bs u;
+     C13.Model.d_rem := [{| C13.Model.r_name := n; C13.Model.r_type := 0; C13.Model.r_enabled := true |}];
+     C13.Model.d_diag := [] |}.
+Definition C14_cover_policies_any_kinds_full : Prop := forall ds pt m u,
+  C13.Model.build ds = Some pt ->
+  policy_selected pt m u -> (forall d, In d ds -> url_ok (C13.Model.d_url d) u = true) ->
+  managed false (policy_endpoints ds) m u = true.
+Theorem C14_cover_policies_any_kinds_full_refuted : ~ C14_cover_policies_any_kinds_full.
+Proof.
+  intro H.
+  destruct (C13.Model.build [pdn "GET" "a.b/c" 1; pdn "GET" "a/b/d" 2]) as [pt|] eqn:HB;
+    [|vm_compute in HB; discriminate].
+  specialize (H [pdn "GET" "a.b/c" 1; pdn "GET" "a/b/d" 2] pt (bs "GET") (bs "a.b/d") HB).
+  assert (E : managed false (policy_endpoints [pdn "GET" "a.b/c" 1; pdn "GET" "a/b/d" 2])
+                      (bs "GET") (bs "a.b/d") = false) by (vm_compute; reflexivity).
+  rewrite H in E; [discriminate | |].
+  - left. vm_compute in HB. inversion HB; subst pt. eexists. vm_compute. left. reflexivity.
+  - intros d [<-|[<-|[]]]; vm_compute; reflexivity.
+Qed.
+Print Assumptions C14_cover_policies_any_kinds_full_refuted.
+
 (* ======== non-vacuity ======== *)
 Open Scope string_scope.
 Definition mf (id : Z) (u : string) (ms : list string) : C03.Model.flow :=
@@ -282,3 +502,76 @@ Proof.
   split; [|split; vm_compute; reflexivity].
   left. vm_compute in HB. inversion HB; subst pt. eexists. vm_compute. left. reflexivity.
 Qed.
+
+(* ---- the narrower hypotheses admit what the first-round ones excluded ---- *)
+
+(* api.com/v1/x/ under api.com/v1/[wildcard] (the most common shape): url_ok = false,
+   url_ok_exact = true, selected and managed; a/x. under a/{p}: the dots are
+   absorbed; a/x/ under a/{p} and a.x. under a.{p}: real bypasses, class 1 *)
+Example C14_demo_exact_spelling :
+  url_ok (bs "api.com/v1/*") (bs "api.com/v1/x/") = false
+  /\ url_ok_exact (bs "api.com/v1/*") (bs "api.com/v1/x/") = true
+  /\ map C03.Model.f_id (C03.Model.get_flow (C03.Proofs.tree_of demo) (tx "HEAD" "api.com/v1/x/")) = [0]
+  /\ managed false (flows_endpoints demo) (bs "HEAD") (bs "api.com/v1/x/") = true
+  /\ url_ok_exact (bs "a/{p}") (bs "a/x.") = true
+  /\ re_search (format (bs "GET") (bs "a/{p}")) (subject (bs "GET") (bs "a/x.")) = true
+  /\ bypass_class (bs "a/{p}") (bs "a/x/") = 1
+  /\ re_search (format (bs "GET") (bs "a/{p}")) (subject (bs "GET") (bs "a/x/")) = false
+  /\ bypass_class (bs "a.{p}") (bs "a.x.") = 1
+  /\ bypass_class (bs "a/*") (bs "/a/x") = 1
+  /\ bypass_class (bs "*") (bs "/a/x") = 0
+  /\ bypass_class (bs "a/{p}/x") (bs "a//x") = 2
+  /\ sep_onceb (bs "GET") (bs "api.com:8080/v1/x/") = true
+  /\ sep_onceb (bs "GET") (bs "a//GET:::a/b") = false.
+Proof. vm_compute. repeat split; reflexivity. Qed.
+
+(* one colliding pair does not void the guarantee for the other flows: the
+   config-wide condition fails, the localised one holds for z.com/x *)
+Definition demo_clash : list C03.Model.flow :=
+  [ mf 0 "a.b/c" []; mf 1 "a/b/d" []; mf 2 "z.com/x" [] ].
+Example C14_demo_localised_collision :
+  C03.Model.load_ok demo_clash = true
+  /\ C03.Spec.kind_consistent demo_clash = false
+  /\ C03.SpecLocal.kc_at demo_clash (mf 2 "z.com/x" []) (C03.Proofs.url_of (tx "GET" "z.com/x")) = true
+  /\ map C03.Model.f_id (C03.Model.get_flow (C03.Proofs.tree_of demo_clash) (tx "GET" "z.com/x")) = [2]
+  /\ managed false (flows_endpoints demo_clash) (bs "GET") (bs "z.com/x") = true
+  /\ C03.SpecLocal.kc_at demo_clash (mf 1 "a/b/d" []) (C03.Proofs.url_of (tx "GET" "a.b/d")) = false.
+Proof. vm_compute. repeat split; reflexivity. Qed.
+
+(* the reader: what it reads, what it refuses *)
+Example C14_demo_reader :
+  parse (bs "GET:::api\.com/v1(/.*)?") = Some (normal (format (bs "GET") (bs "api.com/v1/*")))
+  /\ parse (bs "POST:::[^/.]+\.api\.com/v1/users/[^/]+$")
+      = Some (normal (format (bs "POST") (bs "{tenant}.api.com/v1/users/{user.id}")))
+  /\ parse (bs ".*:::files([./].*)?") = Some (normal (format_any (bs "files.*")))
+  /\ parse (bs "a|b") = None /\ parse (bs "a{2}") = None /\ parse (bs "^a") = None
+  /\ parse (bs "a$b") = None /\ parse (bs "((a))") = None /\ parse (bs "a**") = None
+  /\ parse (bs "[a-z]") = None /\ parse (bs "\d") = None /\ parse (bs "(a") = None.
+Proof. vm_compute. repeat split; reflexivity. Qed.
+
+(* hypotheses of C14_single_flow_managed_iff, both outcomes *)
+Example C14_demo_single_flow :
+  let f := mf 0 "a.com/{p}" ["GET"] in
+  C03.Model.load_ok [f] = true
+  /\ map C03.Model.f_id (C03.Model.get_flow (C03.Proofs.tree_of [f]) (tx "GET" "a.com/x/")) = [0]
+  /\ map C03.Model.f_id (C03.Model.get_flow (C03.Proofs.tree_of [f]) (tx "GET" "a.com/x.")) = [0]
+  /\ trim_url (C03.Model.f_url f) <> []
+  /\ sep_onceb (bs "GET") (bs "a.com/x/") = true
+  /\ managed false (flows_endpoints [f]) (bs "GET") (bs "a.com/x/") = false
+  /\ url_ok_exact (bs "a.com/{p}") (bs "a.com/x/") = false
+  /\ managed false (flows_endpoints [f]) (bs "GET") (bs "a.com/x.") = true
+  /\ url_ok_exact (bs "a.com/{p}") (bs "a.com/x.") = true.
+Proof. vm_compute. repeat split; try reflexivity. discriminate. Qed.
+
+(* hypotheses of C14_found_exactly and of C14_exact_wild / C14_literal_wild *)
+Example C14_demo_found_exactly_hypotheses :
+  trim_url (bs "a.com/{p}") <> []
+  /\ matches (parse_pattern (split_url (bs "a.com/{p}"))) (split_url (bs "a.com/x/")) = true
+  /\ sep_onceb (bs "GET") (bs "a.com/x/") = true
+  /\ ends_wild (split_url (bs "api.com/v1/*")) = true
+  /\ literal_pattern (removelast (split_url (bs "api.com/v1/*"))) = true
+  /\ unsplit true (removelast (split_url (bs "api.com/v1/*"))) = bs "api.com/v1"
+  /\ re_search (format (bs "GET") (bs "api.com/v1/*")) (bs "xGET:::api.com/v1.2/y") = true
+  /\ re_search (format (bs "GET") (bs "api.com/v1/*")) (bs "GET:::api.com/v2/y") = false
+  /\ ends_wild (split_url (bs "h.com/*/y")) = false.
+Proof. vm_compute. repeat split; try reflexivity. discriminate. Qed.
